@@ -51,7 +51,7 @@ pub fn parse_cfg(a: &[&str]) -> Cfg {
     c
 }
 
-fn parse_strategy(s: &str) -> Strategy {
+pub fn parse_strategy(s: &str) -> Strategy {
     let parts: Vec<&str> = s.split(':').collect();
     match parts[0] {
         "random" => Strategy::Random {
